@@ -92,6 +92,13 @@ Stream(s, item) ==
               eff |-> [NoEffect EXCEPT !.called = IF slot[s].owns /\ IsCall(item) THEN 1 ELSE 0]]   \* lazily: only if it will be logged
   /\ UNCHANGED <<cfg, thr>>
 
+(* the stream object is moved into another variable; the moved-from object ends without any effect *)
+MoveStream(s, t) ==
+  /\ UseNamed /\ s \in 1..NSlots /\ t \in 1..NSlots /\ slot[s].st = "live" /\ slot[t].st = "free"
+  /\ slot' = [slot EXCEPT ![t] = slot[s], ![s] = Free]
+  /\ last' = [op |-> "Move", args |-> <<s, t>>, eff |-> NoEffect]
+  /\ UNCHANGED <<cfg, thr>>
+
 End(s) ==
   /\ s \in 1..NSlots /\ slot[s].st = "live"
   /\ slot' = [slot EXCEPT ![s] = Free]
@@ -105,6 +112,7 @@ Next ==
   \/ \E s \in 1..NSlots : \/ \E sev \in Sevs, tag \in {0, 1} : Begin(s, sev, tag)
                           \/ \E item \in Items : Stream(s, item)
                           \/ End(s)
+                          \/ \E t \in 1..NSlots : MoveStream(s, t)
 Spec == Init /\ [][Next]_vars
 
 ------------------------------------------------------------------------------------------------------
